@@ -1363,6 +1363,55 @@ def _T(func, tag, setup, call, args, P=None, V=None, **kw):
     _TEMPLATES.append(dict(func=func, tag=tag, setup=setup, call=call, args=list(args), P=dict(P or {}), V=dict(V or {}), kw=kw))
 
 
+# value classes applied to every float array that a template hands directly to the public call (also to the
+# evaluation points of returned interpolants): non-canonical order, zeros, denormals, infinities, NaN, duplicates,
+# sign flips.  Many of these make the call raise; snapshots are compared either way.
+_MORPH_KINDS = ("reverse", "zero", "inf", "shuffle", "tiny", "nan", "dup", "neg")
+_MORPH_REGULAR = ("reverse", "zero", "inf")
+_MORPH_SRC = (
+    "def _morph(a, kind):\n"
+    "    a = np.array(a, dtype=float)\n"
+    "    f = a.reshape(-1)\n"
+    "    if kind == 'reverse':\n        return a[::-1].copy()\n"
+    "    if kind == 'shuffle':\n        return a[np.random.RandomState(7).permutation(a.shape[0])].copy()\n"
+    "    if kind == 'zero':\n        f[0] = 0.0\n"
+    "    if kind == 'tiny':\n        f[0] = 1e-300\n"
+    "    if kind == 'inf':\n        f[-1] = np.inf\n"
+    "    if kind == 'nan':\n        f[f.size // 2] = np.nan\n"
+    "    if kind == 'dup':\n        f[1] = f[0]\n"
+    "    if kind == 'neg':\n        a = -a\n"
+    "    return a\n"
+    "for _n in @ARGS@:\n"
+    "    _o = globals().get(_n)\n"
+    "    if isinstance(_o, np.ndarray) and _o.dtype.kind == 'f' and _o.ndim >= 1 and _o.size > 1:\n"
+    "        globals()[_n] = _morph(_o, '@KIND@')\n"
+)
+_MORPH_CACHE = []
+
+
+def _morph_templates():
+    """for every base template with a float-array argument created directly in its set-up text: one derived
+    template per value class"""
+    if _MORPH_CACHE:
+        return _MORPH_CACHE
+    import re
+
+    for tpl in list(_TEMPLATES):
+        if "var_" in tpl["tag"] or tpl["kw"].get("needs_scratch") or tpl["kw"].get("tier") == "targeted":
+            continue
+        names = [n for n in tpl["args"] if re.search(r"(?:^|[\n;,(\s])" + re.escape(n) + r"\s*=\s*[^;\n]*(?:np\.|rs\.)", tpl["setup"])]
+        if not names:
+            continue
+        heavy = tpl["func"].split(".")[0] in ("ode", "poisson", "robust_poisson")
+        for kind in _MORPH_KINDS:
+            src = _MORPH_SRC.replace("@ARGS@", repr(names)).replace("@KIND@", kind)
+            kw = dict(tpl["kw"])
+            kw["tier"] = "regular" if (kind in _MORPH_REGULAR and not heavy) else "targeted"
+            _MORPH_CACHE.append(dict(func=tpl["func"], tag=(tpl["tag"] + "~" if tpl["tag"] else "~") + kind, setup=tpl["setup"].rstrip("\n") + "\n" + src,
+                                     call=tpl["call"], args=list(tpl["args"]), P=dict(tpl["P"]), V=dict(tpl["V"]), kw=kw))
+    return _MORPH_CACHE
+
+
 def _subst(text, params):
     for k, v in params.items():
         text = text.replace(f"@{k}@", str(v))
@@ -1400,7 +1449,7 @@ def make_cases(rng, quick=True, only_funcs=None, targeted=False):
     point) is in the given set."""
     cases = []
     counts = {}
-    for tpl in _TEMPLATES:
+    for tpl in list(_TEMPLATES) + _morph_templates():
         tier = tpl["kw"].get("tier", "regular")
         if tier == "targeted" and not targeted:
             continue
@@ -2912,6 +2961,85 @@ def _container_family():
 
 
 _container_family()
+
+
+def _edge_family():
+    """inputs on the edges of what the library accepts: points on / marginally beyond the domain ends (inside and
+    outside the acceptance tolerance), evaluation points at centres / grid points / far away, zero and infinite
+    radii, points on atoms, arguments outside the box"""
+    doms = {"m11": ("-1.0", "1.0"), "01": ("0.0", "1.0"), "0inf": ("0.0", "np.inf"), "0_5": ("0.0", "5.0")}
+    shifts = {"on": ("0.0", "0.0"), "lo_in_tol": ("-3e-8", "0.0"), "hi_in_tol": ("0.0", "3e-8"), "both_in_tol": ("-5e-8", "5e-8"),
+              "lo_out_tol": ("-3e-7", "0.0"), "hi_out_tol": ("0.0", "3e-7")}
+    for dn, (lo, hi) in doms.items():
+        top = "4.0" if hi == "np.inf" else hi
+        for sn, (dl, dh) in shifts.items():
+            if hi == "np.inf" and dh != "0.0":
+                continue
+            pts = _RS + f"pts = np.linspace({lo}, {top}, @N@)\npts[0] += {dl}\npts[-1] += {dh}\nwts = rs.uniform(0.1, 1.0, @N@)\ndom = ({lo}, {hi})\n"
+            reg = sn in ("lo_in_tol", "hi_in_tol", "on") and dn in ("m11", "0inf", "0_5")
+            tier = "regular" if reg else "targeted"
+            _T("basegrid.OneDGrid.__init__", f"var_edge_{dn}_{sn}", pts, "OneDGrid(pts, wts, dom)", ["pts", "wts", "dom"], dict(N=7), dict(N=[2, 5, 7, 12]), alias=[("wts", "pts")], tier=tier)
+            _T("basegrid.OneDGrid.__init__", f"var_edge_shared_{dn}_{sn}", pts + "first = OneDGrid(pts, wts)\n", "OneDGrid(first.points, first.weights, dom)", ["first", "dom"], dict(N=7), dict(N=[2, 5, 7, 12]), tier=tier)
+            _T("basegrid.OneDGrid.__getitem__", f"var_edge_{dn}_{sn}", pts + "og = OneDGrid(pts, wts)\nog._domain = dom\n", "og[0:3]", ["og"], dict(N=7), dict(N=[5, 7, 12]), tier="targeted")
+            if dn in ("0inf", "0_5"):
+                for tfn, tfsrc in (("identity", "IdentityRTransform()"), ("linear", "LinearInfiniteRTransform(0.1, 5.0)"), ("invbecke", "InverseRTransform(BeckeRTransform(0.0, 1.5))")):
+                    _T("rtransform.BaseTransform.transform_1d_grid", f"var_edge_{tfn}_{dn}_{sn}", pts + f"og = OneDGrid(pts, wts)\nog._domain = (0.0, np.inf)\ntf = {tfsrc}\n", "tf.transform_1d_grid(og)", ["tf", "og"],
+                       dict(N=7), dict(N=[5, 7, 12]), tier="regular" if (reg and tfn == "identity") else "targeted")
+            if dn == "m11":
+                for tfn, tfsrc in (("becke", "BeckeRTransform(0.1, 1.2)"), ("linfin", "LinearFiniteRTransform(0.2, 3.0)"), ("knowles", "KnowlesRTransform(0.1, 1.2, 2)"), ("handy", "HandyRTransform(0.1, 1.2, 2)")):
+                    _T("rtransform.BaseTransform.transform_1d_grid", f"var_edge_{tfn}_{sn}", pts + f"og = OneDGrid(pts, wts)\nog._domain = (-1.0, 1.0)\ntf = {tfsrc}\n", "tf.transform_1d_grid(og)", ["tf", "og"],
+                       dict(N=7), dict(N=[5, 7, 12]), tier="regular" if (sn in ("on", "lo_in_tol") and tfn in ("becke", "linfin")) else "targeted")
+                    for m in ("transform", "deriv", "deriv2", "deriv3"):
+                        _T(f"rtransform.{tfsrc.split('(')[0]}.{m}", f"var_edge_{sn}", pts + f"tf = {tfsrc}\n", f"tf.{m}(pts)", ["tf", "pts"], dict(N=7), dict(N=[5, 7, 12]),
+                           tier="regular" if (sn == "on" and m in ("transform", "deriv")) else "targeted")
+    # radial grids for atomic grids: first point at / marginally below zero
+    for sn, first in (("zero", "0.0"), ("neg_in_tol", "-2e-8"), ("tiny", "1e-12")):
+        rg = _RS + f"p = np.linspace(0.0, 3.0, @N@)\np[0] = {first}\nw = np.full(@N@, 3.0 / @N@)\nrg = OneDGrid(p, w)\n"
+        _T("atomgrid.AtomGrid.__init__", f"var_edge_r0_{sn}", rg, "AtomGrid(rg, degrees=[5], rotate=1)", ["rg"], dict(N=6), dict(N=[4, 6, 9]),
+           follow=[("atomgrid.AtomGrid.convert_cartesian_to_spherical", "result.convert_cartesian_to_spherical()"),
+                   ("atomgrid.AtomGrid.integrate_angular_coordinates", "result.integrate_angular_coordinates(np.ones(result.size))")])
+    # evaluation points: on the centre, on grid points, far away, duplicated
+    spec = "tp = np.vstack([ag.center, ag.points[:2], ag.center + 1e-9, [[1e3, 0.0, 0.0]], ag.center])\n"
+    for dv in (0, 1):
+        _T("atomgrid.AtomGrid.interpolate", f"var_edge_points_deriv{dv}", _AG + spec, "ag.interpolate(fv)", ["ag", "fv", "tp"], _PA, _VA,
+           follow=[("atomgrid.AtomGrid.interpolate.interpolate_low", f"result(tp, deriv={dv})")])
+    _T("atomgrid.AtomGrid.interpolate", "var_edge_points_origin_grid", _AG0 + "tp = np.vstack([ag.center, ag.points[:3], [[1e3, 0.0, 0.0]]])\n", "ag.interpolate(fv)", ["ag", "fv", "tp"], _PA, _VA,
+       follow=[("atomgrid.AtomGrid.interpolate.interpolate_low", "result(tp, deriv=1, only_radial_deriv=True)")])
+    _T("atomgrid.AtomGrid.convert_cartesian_to_spherical", "var_edge_center", _AG + spec, "ag.convert_cartesian_to_spherical(tp)", ["ag", "tp"], _PA, _VA)
+    _T("atomgrid.AtomGrid.convert_cartesian_to_spherical", "var_edge_center_arg", _AG + spec + "c = tp[1].copy()\n", "ag.convert_cartesian_to_spherical(tp, c)", ["ag", "tp", "c"], _PA, _VA, alias=[("c", "tp[1]")])
+    _T("poisson.interpolate_laplacian", "var_edge_points", _PAG + "tp = np.vstack([ag.center, ag.points[:2], ag.center + 1e-9, [[50.0, 0.0, 0.0]]])\n", "interpolate_laplacian(ag, fv)", ["ag", "fv", "tp"], _PP, _VPP,
+       follow=[("poisson.interpolate_laplacian.sum_of_interpolation_funcs", "result(tp)")])
+    _T("poisson.solve_poisson_bvp", "var_edge_points", _PAGS + "tp = np.vstack([ag.center, ag.points[:2], [[50.0, 0.0, 0.0]]])\n",
+       "solve_poisson_bvp(ag, fv, tf, include_origin=False, remove_large_pts=10.0)", ["ag", "fv", "tf", "tp"], _PP, _VPP, follow=[(_PBV, "result(tp)")])
+    _T("molgrid.MolGrid.interpolate", "var_edge_points", _MG + "tp = np.vstack([atcoords, mg.points[:2], [[1e3, 0.0, 0.0]]])\n", "mg.interpolate(fv)", ["mg", "fv", "tp"], _PM, _VM,
+       follow=[("molgrid.MolGrid.interpolate.interpolate_low", "result(tp)")])
+    # local grids / moments: centre on a point, zero and infinite radius
+    g3 = _RS + "pts = rs.uniform(-1, 1, (@N@, 3)); wts = rs.uniform(0.1, 1, @N@)\ng = Grid(pts, wts)\n"
+    for rn, r in (("r0", "0.0"), ("rinf", "np.inf"), ("rtiny", "1e-300"), ("r1", "1.0")):
+        _T("basegrid.Grid.get_localgrid", f"var_edge_onpoint_{rn}", g3 + "c = g.points[1]\n", f"g.get_localgrid(c, {r})", ["g", "c"], dict(N=8), _VN, tier="regular" if rn in ("r0", "rinf") else "targeted")
+    for tm in ("cartesian", "radial", "pure", "pure-radial"):
+        _T("basegrid.Grid.moments", f"var_edge_onpoint_{tm}", g3 + "cent = g.points[:2]\nfv = rs.normal(size=@N@)\n", f"g.moments(2, cent, fv, '{tm}')", ["g", "cent", "fv"], dict(N=8), _VN)
+    p3 = _RS + "pts = rs.uniform(-0.5, 3.5, (@N@, 3)); wts = rs.uniform(0.1, 1, @N@)\nrv = np.diag([2.0, 2.5, 3.0])\n"
+    for wr in (True, False):
+        _T("periodicgrid.PeriodicGrid.get_localgrid", f"var_edge_outside_cell_wrap{wr}", p3 + f"pg = PeriodicGrid(pts, wts, rv, wrap={wr})\nc = pg.points[0]\n", "pg.get_localgrid(c, 1.0)", ["pg", "c"], dict(N=8), _VN)
+        _T("periodicgrid.PeriodicGrid.__init__", f"var_edge_on_faces_wrap{wr}", _RS + "pts = np.array([[0.0, 0.0, 0.0], [2.0, 2.5, 3.0], [-1e-9, 1.0, 3.0 + 1e-9], [1.0, 1.0, 1.0]])\nwts = np.ones(4)\nrv = np.diag([2.0, 2.5, 3.0])\n",
+           f"PeriodicGrid(pts, wts, rv, wrap={wr})", ["pts", "wts", "rv"], None, None)
+    # Becke weights with grid points on the nuclei (0/0 branches)
+    bk = _RS + "atcoords = np.array([[0.0, 0.0, -0.7], [0.0, 0.1, 0.7]])\natnums = np.array([1, 8])\npts = np.vstack([atcoords, rs.uniform(-1, 1, (@N@, 3)), atcoords[:1]])\n"
+    _T("becke.BeckeWeights.generate_weights", "var_edge_on_nuclei", bk, "BeckeWeights(order=3).generate_weights(pts, atcoords, atnums, select=1)", ["pts", "atcoords", "atnums"], dict(N=6), _VN)
+    _T("becke.BeckeWeights.compute_weights", "var_edge_on_nuclei", bk, "BeckeWeights(order=3).compute_weights(pts, atcoords, atnums, select=0)", ["pts", "atcoords", "atnums"], dict(N=6), _VN)
+    _T("becke.BeckeWeights.__call__", "var_edge_on_nuclei", bk + "idx = np.array([0, 4, len(pts)])\n", "BeckeWeights(order=2)(pts, atcoords, atnums, idx)", ["pts", "atcoords", "atnums", "idx"], dict(N=6), _VN)
+    # nodes that are not ascending (natural Chebyshev order, column of a node table)
+    _T("rtransform.BeckeRTransform.find_parameter", "var_edge_cheb_desc", _RS + "x = np.cos((np.arange(@N@) + 0.5) * np.pi / @N@)\n", "BeckeRTransform.find_parameter(x, 0.1, 1.3)", ["x"], dict(N=7), dict(N=[4, 7, 10]))
+    _T("rtransform.BeckeRTransform.find_parameter", "var_edge_table_column", _RS + "table = rs.uniform(-0.9, 0.9, (@N@, 3))\nx = table[:, 1]\n", "BeckeRTransform.find_parameter(x, 0.1, 1.3)", ["x", "table"], dict(N=7), dict(N=[4, 7, 10]))
+    # closest point outside the box / exactly between nodes
+    ug = _RS + "ug = UniformGrid(np.zeros(3), np.diag([0.5, 0.5, 0.5]), np.array([3, 4, 5]))\n"
+    for pn, psrc in (("outside", "np.array([-3.0, 9.0, 0.2])"), ("midway", "np.array([0.25, 0.75, 1.25])"), ("node", "ug.points[7]")):
+        for wh in ("closest", "origin"):
+            _T("cubic.UniformGrid.closest_point", f"var_edge_{pn}_{wh}", ug + f"pt = {psrc}\n", f"ug.closest_point(pt, '{wh}')", ["ug", "pt"], None, None, tier="regular" if wh == "closest" else "targeted")
+
+
+_edge_family()
 
 
 if __name__ == "__main__":
